@@ -234,60 +234,69 @@ def canon(t, m, dialect):
         return ('bin', SPELL[t[1]], canon(t[2], m, dialect), canon(t[3], m, dialect))
     return _orig_canon(t, m, dialect)
 
+MP = 'backend-mysql,backend-postgres,backend-sqlite,option-more-parentheses'
 def run(ctx):
     global ENG
     quick = ctx.tier == 'quick'
-    ENG = eng = ctx.engine()
-    nat = ctx.nat()
+    from framework import Native
+    modes = [('default', None, None), ('option-more-parentheses', MP, 'more-parens')]
     items = []
     for b in BACKENDS:
         for sh in shapes(b, not quick): items.append((b, sh))
     ctx.bounds = {'depth': 'all trees of depth <= 2 over %d node kinds (every operand position x every child kind)%s' % (len(KINDS), '' if quick else ', plus depth 3 over the 8 core kinds'),
                   'operators': 'every plain binary operator node is a symbolic discriminant over %d operators; Postgres / SQLite extension operators and one custom operator are enumerated' % len(PLAIN),
-                  'leaves': 'distinct quoted columns and small positive integers; LIKE patterns and CAST types are fixed literals', 'backends': list(BACKENDS)}
+                  'leaves': 'distinct quoted columns and small positive integers; LIKE patterns and CAST types are fixed literals', 'backends': list(BACKENDS),
+                  'builds': 'the default build and the build with the option-more-parentheses feature (own MIR dump and own native replay binary each)'}
     ctx.assumptions += ['reference grammars in props/sqlparse.py (precedence levels and associativity from the three manuals / grammar files cited there)',
                         'IS / IS NOT only in the IS [NOT] NULL form; IN with a non-empty list; inline rendering (placeholders do not affect parenthesisation)',
-                        'an operator unknown to a dialect (BinOper::Custom) must be fully parenthesised', 'option-more-parentheses off (the default build)']
-    # translator validation: concrete trees through engine and native build
+                        'an operator unknown to a dialect (BinOper::Custom) must be fully parenthesised']
     conc_trees = [['bin', 'And', ['bin', 'Or', ['col', 'a'], ['col', 'b']], ['col', 'c']], ['m', 'between', ['col', 'a'], ['bin', 'Add', ['col', 'b'], ['val', V('Int', 1)]], ['col', 'c']],
                   ['m', 'not', ['m', 'is_null', ['col', 'a']]], ['bin', 'Sub', ['col', 'a'], ['bin', 'Sub', ['col', 'b'], ['col', 'c']]],
                   ['m', 'like', ['bin', 'Add', ['col', 'a'], ['col', 'b']], 'x%', 0x21], ['m', 'is_in', ['col', 'a'], [['bin', 'Mul', ['col', 'b'], ['col', 'c']], ['val', V('Int', 2)]]],
                   ['m', 'cast_as', ['bin', 'Equal', ['col', 'a'], ['col', 'b']], 'integer'], ['bin', 'custom:~~~', ['col', 'a'], ['bin', 'Add', ['col', 'b'], ['col', 'c']]]]
-    for b in BACKENDS:
-        for t in conc_trees:
-            res = {}
-            def entry(e, t=t, b=b):
-                sq = SQ(e); txt, _ = sq.render_expr(b, sq.expr(t), 'inline'); res['sql'] = list(txt)
-            eng.run_all(entry)
-            r = nat.ask({'op': 'render_expr', 'backend': b, 'mode': 'inline', 'expr': t})
-            if res.get('sql') == r.get('sql'): ctx.validated += 1
-            else: ctx.inconclusive.append('translator validation: %r engine %r native %r' % (t, res, r))
-    ctx.absorb(eng)
-    nb = ctx.workers * 6
-    batches = [(items[i::nb], ctx.seed) for i in range(nb)]
-    ctx.families = ['%s: %d shapes' % (b, len([1 for i in items if i[0] == b])) for b in BACKENDS]
-    for res in ctx.pmap(work, batches):
-        if not merge_worker(ctx, res): continue
-        for s in res['samples']:
-            r = nat.ask({'op': 'render_expr', 'backend': s['backend'], 'mode': 'inline', 'expr': s['tree']})
-            if r.get('sql') == [ord(c) for c in s['sql']]:
-                ctx.validated += 1
-                if len(ctx.samples) < 12: ctx.samples.append(s)
-            else: ctx.inconclusive.append('passing path does not agree with the native build: %r -> %r' % (s, r))
-        for v in res['violations']:
-            if v['tree'] is None: ctx.inconclusive.append('violation without tree: %r' % (v,)); continue
-            b = v['item'][0]
-            req = {'op': 'render_expr', 'backend': b, 'mode': 'inline', 'expr': v['tree']}
-            r = nat.ask(req)
-            why = native_verdict(b, v['tree'], r)
-            if why:
-                ctx.violations.append({'key': '%s:%s' % (b, role(v['tree'])), 'msg': v['msg'] + ' / native: ' + why, 'tree': v['tree'], 'native_sql': ''.join(chr(c) for c in r.get('sql') or []),
-                                       'replay': req, 'backend': b})
-            else:
-                ctx.inconclusive.append('counterexample does not reproduce natively: %r -> %r' % (v, r))
+    ctx.families = []
+    for mode, feats, natfeat in modes:
+        ENG = eng = ctx.engine(features=feats)
+        nat = ctx.nat() if natfeat is None else Native('dev', natfeat)
+        # translator validation: concrete trees through engine and native build
+        for b in BACKENDS:
+            for t in conc_trees:
+                res = {}
+                def entry(e, t=t, b=b):
+                    sq = SQ(e); txt, _ = sq.render_expr(b, sq.expr(t), 'inline'); res['sql'] = list(txt)
+                eng.run_all(entry)
+                r = nat.ask({'op': 'render_expr', 'backend': b, 'mode': 'inline', 'expr': t})
+                if res.get('sql') == r.get('sql'): ctx.validated += 1
+                else: ctx.inconclusive.append('translator validation (%s): %r engine %r native %r' % (mode, t, res, r))
+        ctx.absorb(eng)
+        nb = ctx.workers * 6
+        batches = [(items[i::nb], ctx.seed) for i in range(nb)]
+        ctx.families += ['%s / %s: %d shapes' % (mode, b, len([1 for i in items if i[0] == b])) for b in BACKENDS]
+        for res in ctx.pmap(work, batches):
+            if not merge_worker(ctx, res): continue
+            for s in res['samples']:
+                r = nat.ask({'op': 'render_expr', 'backend': s['backend'], 'mode': 'inline', 'expr': s['tree']})
+                if r.get('sql') == [ord(c) for c in s['sql']]:
+                    ctx.validated += 1
+                    if len(ctx.samples) < 12: ctx.samples.append(dict(s, build=mode))
+                else: ctx.inconclusive.append('passing path does not agree with the native build (%s): %r -> %r' % (mode, s, r))
+            for v in res['violations']:
+                if v['tree'] is None: ctx.inconclusive.append('violation without tree: %r' % (v,)); continue
+                b = v['item'][0]
+                req = {'op': 'render_expr', 'backend': b, 'mode': 'inline', 'expr': v['tree']}
+                r = nat.ask(req)
+                why = native_verdict(b, v['tree'], r)
+                if why:
+                    ctx.violations.append({'key': '%s:%s' % (b, role(v['tree'])) + ('' if natfeat is None else ':more-parens'), 'msg': v['msg'] + ' / native: ' + why, 'tree': v['tree'],
+                                           'native_sql': ''.join(chr(c) for c in r.get('sql') or []), 'replay': req, 'backend': b, 'native_features': natfeat or ''})
+                else:
+                    ctx.inconclusive.append('counterexample does not reproduce natively (%s): %r -> %r' % (mode, v, r))
+        if natfeat is not None: nat.close()
 
 def replay(ctx, data):
-    r = ctx.nat().ask(data['replay'])
+    from framework import Native
+    nat = ctx.nat() if not data.get('native_features') else Native('dev', data['native_features'])
+    r = nat.ask(data['replay'])
     why = native_verdict(data['backend'], data['tree'], r)
     print('native dev:', ''.join(chr(c) for c in r.get('sql') or []), r.get('panic'), '->', why)
     return 1 if why else 0
